@@ -46,6 +46,11 @@ def run(pid, tier, seed):
     ]
     r = vlib.tlc_must_pass(vlib.run_tlc("buffer", "MC_Buffer", "MC_Buffer.cfg"), "MC_Buffer")
     rep.add_tlc(r)
+    # geometry-level model of the ring (head/tail/wrap/growth transcribed from buffer.go, scaled
+    # constants): decoding the ring always yields the abstract FIFO
+    r = vlib.tlc_must_pass(vlib.run_tlc("buffer", "RingBuffer", "MC_RingBuffer.cfg" if tier == "thorough" else "MC_RingBufferQuick.cfg",
+                                        timeout=1800), "RingBuffer")
+    rep.add_tlc(r)
     d = vlib.scratch("graph-")
     dot = os.path.join(d, "g.dot")
     r = vlib.tlc_must_pass(vlib.run_tlc("buffer", "MC_Buffer", "MC_BufferTour.cfg",
@@ -103,6 +108,26 @@ def run(pid, tier, seed):
     for fl in fails:
         rep.violation({"trace": fl["scenario"], "matched": fl["matched"], "spec": "specs/buffer/TraceBuffer.tla",
                        "cfg": cfg}, describe(fl, judge))
+    if pid == "C06":
+        # the concurrent clause: free-running writers and readers (real parallelism), linearized on the FIFO
+        tp2 = os.path.join(d, "free.trace")
+        rc, out, _ = vlib.go_test(repo, "./packetio/", "^TestVerifBufferConcurrent$", tags=tags, timeout=900,
+                                  env={"VERIF_TRACE": tp2, "VERIF_SEED": seed, "VERIF_RUNS": 12 if not big else 60,
+                                       "VERIF_N": 60 if not big else 150})
+        if rc != 0:
+            if vlib.classify_go_failure(out) == "sut-panic":
+                rep.violation({"go_test_output": out[-4000:]}, "code under test panicked:\n" + out[-1500:])
+                return rep.finish()
+            raise vlib.Inconclusive("free-running harness failed:\n" + out[-3000:])
+        free = vlib.read_ndjson(tp2)
+        rep.extra["free_running_events"] = len(free)
+        n2, fails2, st2 = vlib.validate_scenarios("buffer", "TraceBufferConc", "TraceBufferConc.cfg", free, batch=40000, heap="8g")
+        rep.traces += n2 + len(fails2)
+        for fl in fails2:
+            fails.append(fl)
+            rep.violation({"trace": fl["scenario"][max(0, fl["matched"] - 40):fl["matched"] + 2], "matched": fl["matched"],
+                           "spec": "specs/buffer/TraceBufferConc.tla"},
+                          "concurrent writers/readers: event %s does not linearize on the FIFO (BufferConc.tla)" % json.dumps(fl["first_unmatched"]))
     if not fails:
         # binding self-test: corrupt one recorded field
         scs = [s[1] for s in vlib.split_scenarios(traces)
